@@ -174,13 +174,13 @@ Proof.
     + destruct pre; [|apply p_delete_rule_ok; exact H0].
       apply (fold_cond_delete_rule_ok (fun kr : (id * id) * rule => key_eqb (r_gid (snd kr)) g && is_prefix i (r_id (snd kr)))
                (fun kr => r_gid (snd kr)) (fun kr => r_id (snd kr))). exact H0.
-  - inversion H; subst. apply p_set_group_ok, empty_patch_ok.
+  - destruct (gid_ok (g_id g)); [|discriminate]. inversion H; subst. apply p_set_group_ok, empty_patch_ok.
   - inversion H; subst. apply p_delete_group_ok, empty_patch_ok.
-  - eapply bundle_patch_ok; [|exact H].
+  - destruct (negb (gid_ok (b_id b))); [discriminate|]. eapply bundle_patch_ok; [|exact H].
     destruct (gget (b_id b) (c_groups c)); [|apply empty_patch_ok].
     apply (fold_cond_delete_rule_ok (fun kr : (id * id) * rule => key_eqb (fst (fst kr)) (b_id b)) (fun kr => fst (fst kr)) (fun kr => snd (fst kr))).
     apply empty_patch_ok.
-  - revert H.
+  - destruct (negb (forallb (fun b => gid_ok (b_id b)) bs)); [discriminate|]. revert H.
     match goal with |- fold_left _ bs (Some ?x) = _ -> _ => set (p1 := x) end.
     assert (H1 : patch_ok p1).
     { subst p1.
@@ -462,14 +462,15 @@ Proof. induction l as [|r l IH]; intros s Ss; [exact Ss|]. cbn [fold_left]. appl
 Lemma fold_rule_del_sorted l : forall s, ssorted s -> ssorted (fold_left (fun s (k : id * id) => apply_rule_write (k, None) s) l s).
 Proof. induction l as [|r l IH]; intros s Ss; [exact Ss|]. cbn [fold_left]. apply IH. apply apply_rule_write_sorted; exact Ss. Qed.
 
+Lemma load_repairs_sorted s : ssorted s -> ssorted (snd (load_repairs s)).
+Proof.
+  intros S. unfold load_repairs. cbn [snd]. apply fold_rule_del_sorted. apply fold_rule_put_sorted. exact S.
+Qed.
+
 Lemma initialize_sorted s mr : ssorted s -> ssorted (snd (initialize s mr)).
 Proof.
-  intros S. unfold initialize.
-  set (acc := load_rules s).
-  set (s2 := fold_left _ (filter _ (la_delete acc)) _).
-  assert (S2 : ssorted s2).
-  { subst s2. apply fold_rule_del_sorted. apply fold_rule_put_sorted. exact S. }
-  clearbody s2.
+  intros S. unfold initialize. pose proof (load_repairs_sorted s S) as S2.
+  destruct (load_repairs s) as [acc s2]. cbn [snd] in S2.
   destruct (la_rules acc) as [|x rs].
   - destruct (build_rule_list _); cbn [snd]; apply apply_rule_write_sorted; exact S2.
   - destruct (build_rule_list _); cbn [snd]; exact S2.
@@ -488,13 +489,16 @@ Qed.
 
 Lemma step_sorted st o : ssorted (st_store st) -> ssorted (st_store (fst (step st o))).
 Proof.
-  intros S. destruct o as [mr|u f w|u w|k v|k]; cbn [step].
+  intros S. destruct o as [mr|u f w|u w|ig|mr|k v|k]; cbn [step].
   - pose proof (initialize_sorted (st_store st) mr S) as I.
     destruct (initialize (st_store st) mr) as [[m|e] s']; cbn in *; exact I.
   - unfold step_update. destruct (st_live st) as [m|]; [|exact S]. destruct (make_patch (m_conf m) u) as [p|]; [|exact S].
     destruct (try_commit m (st_store st) p w f) as [[[m' s'] e] ok] eqn:Et. cbn. eapply try_commit_sorted; eauto.
   - unfold step_update. destruct (st_live st) as [m|]; [|exact S]. destruct (make_patch (m_conf m) u) as [p|]; [|exact S].
     destruct (try_commit m (st_store st) p w None) as [[[m' s'] e] ok] eqn:Et. cbn. eapply try_commit_sorted; eauto.
+  - cbn [fst st_store]. destruct ig; [apply load_repairs_sorted; exact S|exact S].
+  - pose proof (initialize_sorted (st_store st) mr S) as I.
+    destruct (initialize (st_store st) mr) as [[m|e] s']; cbn in *; exact I.
   - cbn. destruct S as [A B]. split; cbn; [apply (aset_sorted pair_cmp good_pair pair_cmp_eq); exact A|exact B].
   - cbn. destruct S as [A B]. split; cbn; [apply (adel_sorted pair_cmp); exact A|exact B].
 Qed.
@@ -723,7 +727,7 @@ Lemma initialize_mirror c s mr :
   initialize s mr =
   (match build_rule_list (map snd (c_rules c)) with inl _ => inr EBuild | inr rl => inl (Manager c rl) end, s).
 Proof.
-  intros [A B C D] Hcan [M1 M2 M3] Hne. unfold initialize.
+  intros [A B C D] Hcan [M1 M2 M3] Hne. unfold initialize, load_repairs.
   assert (L : la_rules (load_rules s) = strip_rules (c_rules c) /\ la_save (load_rules s) = [] /\ la_delete (load_rules s) = []).
   { unfold load_rules. rewrite M1. apply (load_rules_mirror (c_rules c) [] (LoadAcc [] [] [])); cbn; auto. }
   destruct L as (L1 & L2 & L3). rewrite L1, L2, L3. cbn [fold_left filter].
@@ -1104,7 +1108,7 @@ Qed.
 Lemma initialize_empty_hist_ok mr m s' : initialize (Storage [] []) mr = (inl m, s') -> hist_ok m s'.
 Proof.
   intros H. pose proof (initialize_empty_mirrors mr m s' H) as M. pose proof (initialize_canonical _ _ _ _ H) as Cn.
-  unfold initialize in H. cbn [load_rules s_rules fold_left la_rules la_save la_delete s_groups] in H.
+  unfold initialize, load_repairs in H. cbn [load_rules s_rules fold_left filter la_rules la_save la_delete s_groups] in H.
   destruct (build_rule_list _) as [e|rl] eqn:B; inversion H; subst. clear H. cbn [m_conf m_list] in *.
   assert (Hmr : (1 <= mr)%Z).
   { destruct (Z.leb_spec 1 mr) as [L|L]; [exact L|exfalso].
@@ -1135,7 +1139,7 @@ Proof.
   assert (G : forall ups st, forallb fault_free_update ups = true -> st_hist_ok st -> st_hist_ok (run_state step st ups)).
   { clear. induction ups as [|o rest IH]; intros st Hff Hst; [exact Hst|].
     cbn in Hff. apply andb_true_iff in Hff as [Ho Hrest]. cbn [run_state]. apply IH; [exact Hrest|].
-    destruct o as [| u f w | u w | |]; try discriminate.
+    destruct o as [| u f w | u w | | | |]; try discriminate.
     - destruct f; [discriminate|]. apply step_update_hist_ok; exact Hst.
     - apply step_update_hist_ok; exact Hst. }
   apply G; [exact Hff|].
